@@ -122,8 +122,8 @@ type AlgoStats struct {
 	// FailOver > 0: the compressor refuses inputs longer than this many bytes -
 	// its Close returns an error and nothing is written (a block compressor
 	// with an input cap; Compressor.Close may fail like any io.Closer).
-	FailOver       int32
-	Refusals       int64
+	FailOver int32
+	Refusals int64
 	// CloseVerdict != 0: a decompressor that finds its input corrupt does not
 	// say so from Reset or Read; it hands out the bytes it has and reports the
 	// problem from Close (a trailing-checksum format: Decompressor.Close may
